@@ -49,10 +49,10 @@ def sv_observables(eval_times, n, extra_state: np.ndarray | None = None, with_st
     return obs
 
 
-def run_sv(spec, cfg, observables=None, noise=None):
+def run_sv(spec, cfg, observables=None, noise=None, seq=None):
     import emu_sv as sv
 
-    seq = kit.build_sequence(spec)
+    seq = seq if seq is not None else kit.build_sequence(spec)
     n = len(spec["coords"])
     kw = {}
     if cfg.get("init"):
@@ -109,10 +109,10 @@ def mps_initial_state(n, kind, seed=0, dim=2, eigenstates=("r", "g")):
     return m.MPS.from_state_amplitudes(eigenstates=eigenstates, amplitudes=amps)
 
 
-def run_mps(spec, cfg, observables=None, noise=None):
+def run_mps(spec, cfg, observables=None, noise=None, seq=None):
     import emu_mps as m
 
-    seq = kit.build_sequence(spec)
+    seq = seq if seq is not None else kit.build_sequence(spec)
     n = len(spec["coords"])
     kw = {}
     if cfg.get("init"):
